@@ -1,7 +1,8 @@
 PROPERTY = "C18"
 LEVEL = "proof"
 LEAN_MODULES = ["CifModel.Props.C18"]
-REQUIRED = ["CifModel.C18_delim_permitted"]
+REQUIRED = ["CifModel.C18_stats_exact", "CifModel.C18_maxRun_spec", "CifModel.C18_delim_permitted", "CifModel.C18_delim_admissible",
+            "CifModel.C18_prefers_simple", "CifModel.C18_reserved_iff", "CifModel.C18_set_unquoted_iff", "CifModel.C18_try_quoted"]
 GEN = ["ErrCodes"]
 FAMILIES = ["analyze", "reserved", "setq"]
 TRUSTED_BASE = []
